@@ -72,7 +72,7 @@ reg(id="C09", props="Props/C09.v", proof_files=["Proofs/BeProofs.v"], families=[
     "is started, memory and log descriptors replaced, channel descriptors replaced are part of those histories",
     trusted_base=BE_TB, assumptions=BE_ASSUME + ["the kernel disposes of SCM_RIGHTS descriptors that were never received when the socket is closed"])
 
-reg(id="C08", props="Props/C08.v", proof_files=["Proofs/TransportProofs.v", "Proofs/FramingProofs.v"],
+reg(id="C08", props="Props/C08.v", proof_files=["Proofs/TransportProofs.v", "Proofs/FramingProofs.v", "Proofs/FeRecvProofs.v"],
     families=[Seg(), Iovs(), Tx(), FeTrunc(), ProxyTrunc()],
     rule="family fe (truncated-reply cases only): a negotiated session, then every reply-bearing and acknowledged frontend operation whose conformant "
          "reply ends at offsets 0, 1, 11, 12, 13, 20, 23, 24, 25, len-1, random followed by the peer closing: the call must fail. family proxy (truncated-ack cases only): every proxy operation, the zero acknowledgement cut at every offset 0..19. family seg: clean request histories (as family be) where one message is delivered under every 2-split at characteristic "
@@ -99,7 +99,7 @@ PX_RULE = ("family fsrv: request streams fed to the real FrontendReqHandler by a
            "judged by Spec/ProxySpec.v")
 PX_TB = ["hand models Model/Proxy.v of the Backend proxy and of FrontendReqHandler::handle_request (tied by families fsrv, proxy, psess)",
          "Spec/ProxySpec.v: my transcription of the backend-request table, the acknowledgement rule and the validity of handler invocations"]
-reg(id="C06", props="Props/C06.v", proof_files=["Proofs/FeProofs.v", "Proofs/ProxyProofs.v", "Proofs/GpuProofs.v"], families=[Fe(), Fsrv(), Proxy(), Gpu()],
+reg(id="C06", props="Props/C06.v", proof_files=["Proofs/FeProofs.v", "Proofs/ProxyProofs.v", "Proofs/GpuProofs.v", "Proofs/FeRecvProofs.v"], families=[Fe(), Fsrv(), Proxy(), Gpu()],
     rule=FE_RULE + " || " + PX_RULE, trusted_base=FE_TB + PX_TB, assumptions=BE_ASSUME)
 reg(id="C18", props="Props/C18.v", proof_files=["Proofs/ProxyProofs.v", "Proofs/FwdProofs.v"], families=[Psess(), Fsrv(), Proxy()],
     rule=PX_RULE, trusted_base=PX_TB, assumptions=BE_ASSUME)
